@@ -120,10 +120,15 @@ type Explorer struct {
 }
 
 type Worker struct {
-	id     int
-	in     *Interp
-	solver *Solver
-	ex     *Explorer
+	id            int
+	in            *Interp
+	solver        *Solver
+	ex            *Explorer
+	domDecisions  int
+	crossEvery    int
+	crossChecked  int
+	crossMismatch int
+	decisions     int
 }
 
 func (i *Interp) solver() *Solver { return i.worker.solver }
@@ -163,15 +168,18 @@ func (i *Interp) decide(c *Term, fr *frame, what string) bool {
 		if nf == 0 && nt > 0 {
 			ex.taken = append(ex.taken, dec{v: 1, forced: true})
 			ex.domForced++
+			i.crossCheck(c, true, false)
 			return true
 		}
 		if nt == 0 && nf > 0 {
 			ex.taken = append(ex.taken, dec{v: 0, forced: true})
 			ex.domForced++
+			i.crossCheck(c, false, true)
 			return false
 		}
 		if exact && nt > 0 && nf > 0 {
 			ex.domBoth++
+			i.crossCheck(c, true, true)
 			alt := make([]dec, pos+1)
 			copy(alt, ex.taken)
 			alt[pos] = dec{v: 0}
@@ -202,6 +210,24 @@ func (i *Interp) decide(c *Term, fr *frame, what string) bool {
 	ex.taken = append(ex.taken, dec{v: 1})
 	i.addConstraint(c)
 	return true
+}
+
+// crossCheck re-decides a sample of the domain pass's verdicts with the SMT
+// solver; a disagreement is an executor defect and poisons the run.
+func (i *Interp) crossCheck(c *Term, canTrue, canFalse bool) {
+	w := i.worker
+	w.domDecisions++
+	if w.domDecisions%w.crossEvery != 0 {
+		return
+	}
+	w.crossChecked++
+	v1, _ := w.solver.Check(c, nil)
+	v0, _ := w.solver.Check(i.ts.Not(c), nil)
+	ok := (v1 == Unknown || (v1 == Sat) == canTrue) && (v0 == Unknown || (v0 == Sat) == canFalse)
+	if !ok {
+		w.crossMismatch++
+		panic(unsupported{"domain pass and SMT solver disagree on " + c.String()})
+	}
 }
 
 // truth is decide for a value that may be a concrete bool.
@@ -497,6 +523,7 @@ func (w *Worker) runPath(h *Harness, prefix []dec) (res pathResult) {
 				res.sample = m
 			}
 		}
+		w.decisions += len(ex.taken)
 		w.solver.EndPath()
 		i.tr.undo()
 		i.ex = nil
